@@ -79,7 +79,7 @@ func (p *Auth) Unpack(buf []byte) error {
 	}
 
 	p.Reason = buf[0]
-	methodLen := buf[1]
+	methodLen := int(buf[1])
 
 	if len(buf) < int(2+methodLen) {
 		return fmt.Errorf("bad AUTH packet length: expected >=%d, got %d", 2+methodLen, len(buf))
